@@ -1,6 +1,6 @@
 """Sidecar contracts for tefra/xsdata, keyed by module:QualName (see DESIGN.md §2.1)."""
 
-MODULES = ["c06_dates", "c03_namespaces", "c05_converters", "c10_strictness", "c09_infoset", "c06_datatypes", "c05_factory", "c14_history", "c17_client", "c03_writer", "c15_clean_failure"]
+MODULES = ["c06_dates", "c03_namespaces", "c05_converters", "c10_strictness", "c09_infoset", "c06_datatypes", "c05_factory", "c14_history", "c17_client", "c03_writer", "c15_clean_failure", "c07_names", "c04_dict"]
 
 # helpers executed by inlining their real source instead of through a contract (listed in evidence)
 INLINE = ["calendar:isleap"]
@@ -8,6 +8,22 @@ INLINE = ["calendar:isleap"]
 NODES = "xsdata.formats.dataclass.parsers.nodes"
 
 PROPERTIES = {
+    "C04": {
+        "min_obligations": 30,
+        "canaries": [
+            {"name": "filter_none-keeps-none", "function": "xsdata.formats.dataclass.serializers.dict:filter_none#three-entries",
+             "module": "xsdata.formats.dataclass.serializers.dict", "target": "filter_none", "old": "if v is not None", "new": "if v is not None or k"},
+        ],
+        "decided": [], "not_decided": [], "bounded": [], "trusted_base": [], "assumptions": [],
+    },
+    "C07": {
+        "min_obligations": 30,
+        "canaries": [
+            {"name": "classify-off-by-one", "function": "xsdata.utils.text:classify", "module": "xsdata.utils.text",
+             "target": "classify", "old": "64 < code_point < 91", "new": "64 < code_point < 90"},
+        ],
+        "decided": [], "not_decided": [], "bounded": [], "trusted_base": [], "assumptions": [],
+    },
     "C15": {
         "min_obligations": 100,
         "canaries": [
